@@ -374,6 +374,11 @@ class RadiRouter:
     def _add(self, rule, methods, handler, name=None, *, meta=None, overwrite=False):
         route = Route(rule)
         route_ = self._match(route.pattern, route.filters)
+        if name and not overwrite:
+            # reject a name clash before anything is registered
+            registered = self.named_routes.get(name)
+            if registered and registered is not route_:
+                raise RouteBuildError(f'Can`t register route, name `{name}` is already used')
         if route_:
             route = route_
         else:
@@ -386,9 +391,6 @@ class RadiRouter:
             route.add_method(methods, handler, meta)
 
         if name:
-            registered = self.named_routes.get(name)
-            if not overwrite and registered and registered is not route:
-                raise RouteBuildError(f'Can`t register route, name `{name}` is already used')
             self.named_routes[name] = route
         return route
 
